@@ -38,8 +38,17 @@ class Preemptive:
              "hrevolve_sequences/basic_functions.py")
 
     def __init__(self, seed, tasks, p_cold, p_hot, world_kw=None,
-                 p_excursion=0.0):
+                 p_excursion=0.0, pin=None):
         self.rng = random.Random(seed)
+        # pinned world: no random pre-emption at all; the only hand-over is
+        # one excursion at the k-th line event of task `pin[0]`, counted
+        # over frames named __init__ (pin[1] == "ctor") or over all library
+        # frames ("any").  Sweeping k enumerates "a whole constructor /
+        # next() of another task in the middle of one call of this task, at
+        # line k" instead of sampling it.
+        self.pin = tuple(pin) if pin else None
+        self.pin_count = 0
+        self.started = set()
         # share of hand-overs that are *excursions*: the other task runs,
         # without being pre-empted, until the library call it is in (or
         # makes next: one constructor, one next()) returns; then the baton
@@ -79,6 +88,29 @@ class Preemptive:
         if self.excursion is not None:
             return                  # the runner of an excursion is not pre-empted
         code = frame.f_code
+        if self.pin is not None:
+            who, mode, k = self.pin
+            if me != who or (mode == "ctor" and code.co_name != "__init__"):
+                return
+            self.pin_count += 1
+            if self.pin_count != k:
+                return
+            others = [t for t in sorted(self.alive) if t != me]
+            fresh = [t for t in others if t not in self.started]
+            others = fresh or others
+            if not others:
+                return
+            nxt = others[0]
+            site = (os.path.basename(code.co_filename), frame.f_lineno)
+            self.sites.add(site)
+            self.switches += 1
+            self.excursion = (me, nxt)
+            self.excursions += 1
+            self.log.update(f"{me}>>!{nxt}@{site[0]}:{site[1]};".encode())
+            self.events[me].clear()
+            self.events[nxt].set()
+            self._wait(me)
+            return
         hot = (code.co_name in HOT or
                code.co_filename.endswith(self.hot_file) or
                (self.p_excursion and code.co_name == "__init__"))
@@ -155,6 +187,7 @@ class Preemptive:
         self.tls.depth = 0
         try:
             self._wait(me)
+            self.started.add(me)
             cfg, passes = self.tasks[me]
             w = W.World(**self.world_kw)
             self.worlds[me] = w
@@ -181,6 +214,8 @@ class Preemptive:
             for t in threads:
                 t.start()
             first = self.rng.choice(sorted(self.alive))
+            if self.pin is not None:
+                first = self.pin[0]
             self.events[first].set()
             if not self.done.wait(WAIT_S * 4):
                 self.errors.append((-1, "pre-emptive world did not finish"))
@@ -192,6 +227,6 @@ class Preemptive:
 
 
 def run_preemptive(seed, tasks, p_cold, p_hot, world_kw=None,
-                   p_excursion=0.0):
+                   p_excursion=0.0, pin=None):
     return Preemptive(seed, tasks, p_cold, p_hot, world_kw,
-                      p_excursion).run()
+                      p_excursion, pin).run()
